@@ -455,8 +455,8 @@ pub fn run_case(rng: &mut Rng, profile: &str) -> CaseOut {
     let lang = &LSYM;
     let ns = rng.range(2, 4);
     let ops: Vec<&'static str> = match profile {
-        "deep" => vec!["f", "g", "k", "h", "var", "c", "d", "u", "w", "app", "pair", "lam", "sum", "let", "idx"],
-        _ => vec!["f", "g", "h", "k", "q", "var", "c", "d", "u", "app", "lam", "sum"],
+        "deep" => vec!["f", "g", "k", "h", "var", "c", "d", "u", "w", "app", "pair", "lam", "sum", "let", "idx", "bb", "sb", "ite"],
+        _ => vec!["f", "g", "h", "k", "q", "var", "c", "d", "u", "app", "lam", "sum", "bb"],
     };
     let cfg = GenCfg { lang, ops, ns, max_depth: if profile == "deep" { 3 } else { 2 }, max_names: 4, shadow: false };
     let h = gen_history(rng, &cfg, 7, 6);
@@ -612,6 +612,8 @@ pub fn run_case(rng: &mut Rng, profile: &str) -> CaseOut {
                 let mut done = false;
                 let t2 = repl(&h.terms[k], &h.terms[ia], &h.terms[ib], &mut done, &mut vec![]);
                 if done && t2.canon() != h.terms[k].canon() && queries.len() < 12 {
+                    // half of the never-inserted terms are written as alpha variants whose bound names sort the other way round
+                    let t2 = if rng.chance(1, 2) { let mut next = crate::tm::NUM_BASE + 400; t2.alpha_variant(&mut next) } else { t2 };
                     if rng.chance(1, 2) {
                         queries.push((h.terms[k].clone(), t2));
                     } else {
